@@ -303,6 +303,17 @@ impl Builtins {
             acc.nontrivial(&idx);
             return;
         }
+        // every name of the tables as a match pattern (type names are patterns of their own)
+        if args.len() == 1 {
+            for lit in [false, true] {
+                for shape in ["match {A} { case {F}: 1, case _: 2 }", "match {A} { case {F}: {F} }", "match {F} { case {A}: 1 }", "match {A} { case =={F}: 1, case >{F}: 2 }"] {
+                    let mut binds = Vec::new();
+                    let sa = place(args[0], "a", lit, &mut binds);
+                    let src = shape.replace("{A}", &sa).replace("{F}", name);
+                    total(acc, &format!("match with {}", name), &src, &binds, json!({"a": args[0].show()}));
+                }
+            }
+        }
         // the variable slot of a macro holding something that is not an identifier (the slot is
         // evaluated in an interpreter without bindings)
         if args.len() == 1 {
@@ -434,13 +445,53 @@ impl Chars {
     }
 }
 
+// ---- long lists of elements without a common order ----------------------------------------
+
+/// element pools; a list takes its elements from one pool in rotation
+fn long_list_pools() -> Vec<Vec<V>> {
+    vec![
+        vec![V::Int(3), V::Dbl(f64::NAN), V::s("a"), V::Dbl(1.5), V::Int(-1)],
+        vec![V::Dbl(f64::NAN), V::Dbl(1.0), V::Dbl(f64::NAN), V::Dbl(0.0), V::Dbl(-2.5)],
+        vec![V::Int(2), V::s("b"), V::Int(1), V::s("a"), V::Null, V::Bool(true)],
+        vec![V::Int(5), V::UInt(3), V::Dbl(4.5), V::Bool(false), V::Int(-7)],
+        vec![V::Bytes(vec![1]), V::s("x"), V::Bytes(vec![]), V::s("")],
+        vec![V::list(&[V::Int(1)]), V::Int(1), V::map(&[("a", V::Int(1))]), V::Type("int".into())],
+        vec![V::Ts(0), V::Dur(5), V::Ts(NS), V::Dur(-5), V::Int(0)],
+    ]
+}
+const LONG_LENGTHS: [usize; 9] = [2, 19, 20, 21, 22, 33, 50, 64, 200];
+const LONG_EXPRS: [&str; 8] = ["{L}.sort()", "sort({L})", "min({L})", "max({L})", "{L}.sort().size()", "{L}.map(x, x).sort()", "{L}.filter(x, x == x).sort()", "({L} + {L}).sort()"];
+
+fn long_lists_size() -> u64 {
+    (long_list_pools().len() * LONG_LENGTHS.len() * 6) as u64
+}
+
+fn run_long_list(idx: u64, acc: &mut Acc) {
+    let pools = long_list_pools();
+    let d = unrank(idx, &[pools.len() as u64, LONG_LENGTHS.len() as u64, 6]);
+    let pool = &pools[d[0] as usize];
+    let len = LONG_LENGTHS[d[1] as usize];
+    let (step, rot) = ([1usize, 2, 3][(d[2] % 3) as usize], (d[2] / 3) as usize);
+    let items: Vec<V> = (0..len).map(|i| pool[(i * step + rot) % pool.len()].clone()).collect();
+    let l = V::List(items);
+    acc.nontrivial(&idx);
+    for e in LONG_EXPRS {
+        total(acc, "long list", &e.replace("{L}", "l"), &[("l", l.clone())], json!({"pool": d[0], "length": len, "step": step}));
+        if let Some(lit) = l.lit() {
+            total(acc, "long list", &e.replace("{L}", &lit), &[], json!({"pool": d[0], "length": len, "step": step, "form": "literal"}));
+        }
+    }
+}
+
 // ---- nesting ladders (child processes) --------------------------------------------
 
-pub const CONSTRUCTS: [&str; 24] = [
+pub const CONSTRUCTS: [&str; 26] = [
     "paren", "list", "map", "neg", "not", "index", "call", "method-chain", "ternary-right", "binary-left", "binary-right-paren",
     "macro", "fstring", "match", "has", "member-chain",
     // left-nested chains of every other binary operator class (constant operands)
     "chain-or", "chain-and", "chain-eq", "chain-lt", "chain-in", "chain-sub", "chain-mul", "chain-mod",
+    // values nested at run time: the source is flat, the value is as deep as the bound list `zs` is long
+    "reduce-nested-list", "reduce-nested-map",
 ];
 
 pub fn ladder_source(construct: &str, depth: usize) -> String {
@@ -485,6 +536,8 @@ pub fn ladder_source(construct: &str, depth: usize) -> String {
         "chain-sub" => format!("1{}", " - 0".repeat(d)),
         "chain-mul" => format!("1{}", " * 1".repeat(d)),
         "chain-mod" => format!("1{}", " % 2".repeat(d)),
+        "reduce-nested-list" => "zs.reduce(acc, z, [acc], []).size()".to_string(),
+        "reduce-nested-map" => "zs.reduce(acc, z, {'k': acc}, {}).size()".to_string(),
         _ => panic!("unknown construct"),
     }
 }
@@ -498,6 +551,7 @@ pub fn ladder_worker(construct: &str, depth: usize, stack: Option<usize>) -> i32
             ("x", V::Int(1)),
             ("l", V::list(&[V::Int(0)])),
             ("m", V::map(&[("a", V::Int(1))])),
+            ("zs", V::List(vec![V::Int(0); depth])),
         ];
         let o = real::eval(&src, &binds);
         // dropping / cloning / printing the program must be total as well
@@ -518,6 +572,7 @@ pub fn ladder_worker(construct: &str, depth: usize, stack: Option<usize>) -> i32
 const HANG_CPU: Duration = Duration::from_secs(150);
 pub struct Ladders {
     chain_cap: usize,
+    value_cap: usize,
     depths: Vec<usize>,
     bins: Vec<(String, String)>,
 }
@@ -539,7 +594,7 @@ impl Ladders {
         if let Some(b) = isolate::self_bin("VERIF_DEV_BIN") {
             bins.push(("dev".to_string(), b));
         }
-        Ladders { chain_cap: t.pick(4096, 16384), depths, bins }
+        Ladders { chain_cap: t.pick(4096, 16384), value_cap: t.pick(16384, 65536), depths, bins }
     }
     pub fn size(&self) -> u64 {
         (CONSTRUCTS.len() * self.depths.len() * self.bins.len() * STACKS.len()) as u64
@@ -555,6 +610,11 @@ impl Ladders {
         let chain_cap = self.chain_cap;
         if (construct == "member-chain" || construct == "method-chain") && depth > chain_cap {
             depth = chain_cap;
+        }
+        // building a value d levels deep costs d^2 copies: the quick tier stops at 16384 levels
+        // (three of the four known overflows show there), the thorough tier goes on to 65536
+        if construct.starts_with("reduce-nested") && depth > self.value_cap {
+            depth = self.value_cap;
         }
         let args = vec![
             "C01".to_string(),
@@ -595,7 +655,19 @@ impl Ladders {
             ChildResult::Abort(sig) => {
                 acc.class("abort");
                 // the known dev/2 MiB finding starts at 14 levels; anything shallower is a new violation
-                let dclass = if depth >= 13 { "depth>=13" } else { "depth<13" };
+                // values nested at run time overflow from about 4096 levels on (dev, 2 MiB); the source
+                // of those rungs is flat, so the parser's nesting limit does not apply
+                let dclass = if construct.starts_with("reduce-nested") {
+                    if depth >= 2048 {
+                        "depth>=2048"
+                    } else {
+                        "depth<2048"
+                    }
+                } else if depth >= 13 {
+                    "depth>=13"
+                } else {
+                    "depth<13"
+                };
                 acc.violation(&format!("nesting {} aborts-process [{} {} {}]", construct, profile, stack_name, dclass), case, "a value or an error".into(), format!("child killed by signal {}", sig));
             }
             ChildResult::Hang => {
@@ -624,6 +696,7 @@ pub fn replay_families(t: Tier) -> Vec<Family<'static>> {
     let ch: &'static Chars = Box::leak(Box::new(Chars::new(t)));
     vec![
         Family::new("characters", ch.size(), move |i, a| ch.run(i, a)),
+        Family::new("long-lists", long_lists_size(), run_long_list),
         Family::new("ops", ops.size(), move |i, a| ops.run(i, a)),
         Family::new("builtins", bi.size(), move |i, a| bi.run(i, a)),
         Family::new("tokens", tk.size(), move |i, a| tk.run(i, a)),
@@ -633,7 +706,7 @@ pub fn replay_families(t: Tier) -> Vec<Family<'static>> {
 
 pub fn run(t: Tier) -> i32 {
     let mut rep = Report::new(ID, t, "exploration");
-    rep.rule = "ops: every unary/binary operator, index, `in`, ternary over all ordered pairs of a 57-value boundary pool in literal and bound forms; builtins: every name found in the repository's function/macro/type tables called as function and as method with every argument tuple of arity 0..2 over the pool, arity 3..N over a 13-value pool, 8 macro shapes, and 10 shapes with a member access, index, call, list or negation in the variable slot of a macro; tokens: every space-joined string of 1..N tokens over a 50-token alphabet (operators, brackets, keywords, identifiers, extreme literals, hostile lexemes); characters: every string of 1..4 (thorough: 5) characters over 30 characters that take part in the inner structure of tokens (prefix letters b f r u x e, digits, point, both quotes, backslash, braces, brackets, comma, colon, signs, blank, line break, a two-byte letter, ?, #, NUL); ladders: 24 nesting constructs (incl. left-nested chains of every binary operator class) at increasing depths, each rung in its own child process, in two build profiles and on 8 MiB and 2 MiB stacks. Oracle: outcome is a value, an error or a syntax error, never a panic, abort or hang. Non-trivial = the case got past the parser (tokens, characters) / the rung produced a value (ladders) / every ops and builtins case; distinct by case index".to_string();
+    rep.rule = "ops: every unary/binary operator, index, `in`, ternary over all ordered pairs of a 57-value boundary pool in literal and bound forms; builtins: every name found in the repository's function/macro/type tables called as function and as method with every argument tuple of arity 0..2 over the pool, arity 3..N over a 13-value pool, 8 macro shapes, and 10 shapes with a member access, index, call, list or negation in the variable slot of a macro; tokens: every space-joined string of 1..N tokens over a 50-token alphabet (operators, brackets, keywords, identifiers, extreme literals, hostile lexemes); long-lists: lists of 2..200 elements taken in rotation from 7 pools of elements without a common order (numbers with NaN, strings, null, bytes, lists, maps, types, timestamps, durations) under sort, min, max and macros feeding sort, bound and literal; every name of the tables also as a match pattern in 4 shapes; characters: every string of 1..4 (thorough: 5) characters over 30 characters that take part in the inner structure of tokens (prefix letters b f r u x e, digits, point, both quotes, backslash, braces, brackets, comma, colon, signs, blank, line break, a two-byte letter, ?, #, NUL); ladders: 26 nesting constructs (incl. left-nested chains of every binary operator class, and values nested at run time by reduce over a bound list) at increasing depths, each rung in its own child process, in two build profiles and on 8 MiB and 2 MiB stacks. Oracle: outcome is a value, an error or a syntax error, never a panic, abort or hang. Non-trivial = the case got past the parser (tokens, characters) / the rung produced a value (ladders) / every ops and builtins case; distinct by case index".to_string();
     let fams = replay_families(t);
     let n_ladder_bins = std::env::var("VERIF_DEV_BIN").map(|_| 2).unwrap_or(1);
     for f in fams {
